@@ -304,6 +304,9 @@ PPL::Grid::remove_space_dimensions(const Variables_Set& vars) {
   }
 
   gen_sys.remove_space_dimensions(vars);
+  // The lines and parameters that only had nonzero coefficients on the
+  // removed dimensions are now invalid (they are the origin): drop them.
+  gen_sys.remove_invalid_lines_and_parameters();
 
   clear_congruences_up_to_date();
   clear_generators_minimized();
@@ -367,6 +370,11 @@ PPL::Grid::remove_higher_space_dimensions(const dimension_type new_dimension) {
       dim_kinds.resize(new_dimension + 1);
       // TODO: Consider if it is worth also preserving the congruences
       //       if they are also in minimal form.
+    }
+    else {
+      // The lines and parameters that only had nonzero coefficients on
+      // the removed dimensions are now invalid (they are the origin).
+      gen_sys.remove_invalid_lines_and_parameters();
     }
     clear_congruences_up_to_date();
     // Extend the zero dim false congruence system to the appropriate
